@@ -38,7 +38,7 @@ def main():
     sw.inj.budget = B1
     sw.alarm_s = chk.pick(25, 60)
     sw.nvariants = 0
-    blocks = c11.select_blocks(chk, mpmath, chk.pick(0.15, 1.0))
+    blocks = c11.select_blocks(chk, mpmath, chk.pick(0.15, 0.5))
     CALCULUS = {"quad", "quadgl", "quadts", "quadosc", "quadsubdiv", "nsum", "nprod", "sumem", "sumap", "limit", "diff", "diffs", "diffs_prod", "diffs_exp", "taylor", "pade",
                 "findroot", "polyroots", "odefun", "chebyfit", "fourier", "invertlaplace", "invlaptalbot", "invlapstehfest", "invlapdehoog", "pslq", "findpoly", "identify",
                 "hyper2d", "appellf1", "appellf2", "appellf3", "appellf4", "richardson", "shanks", "levin", "cohen_alt", "differint", "difference", "eig", "eigh", "svd", "expm", "logm",
@@ -88,7 +88,7 @@ def main():
         meta[eid] = dict(info, exit=exit_, exc=exc, work=work)
     try:
         for name, stmts in blocks + direct_blocks():
-            for P in (DIRECT_PRECS if name.startswith("direct/") else chk.pick([53, 400], [53, 200, 1000, 4000])):
+            for P in (DIRECT_PRECS if name.startswith("direct/") else chk.pick([53, 400], [53, 400, 1500])):
                 # the numerical-calculus routines and integer sequences are exercised at the documented scale only: at a
                 # raised precision their documented examples are legitimately heavy (no verdict about termination possible)
                 if P > 53 and (name in CALCULUS or any(any(cn + "(" in s for cn in CALCULUS) for s in stmts)):
